@@ -91,6 +91,8 @@ def pinned_grid(ctx):
             np.array([[4., -2., 0.], [-2., 5., 1.], [0., 1., 3.]])]
     # non-symmetric matrices: x'Qx only depends on the symmetric part (an indefinite symmetric part must be refused)
     mats = mats + [np.array([[2., 2.], [0., 2.]]), np.array([[2., 0.], [3., 2.]]), np.array([[3., -1., 0.], [1., 2., 2.], [0., -2., 4.]])]
+    # singular semidefinite matrices (zero diagonal entries, rank one, a zero row/column)
+    mats = mats + [np.diag([0., 4., 0.]), np.diag([0., 1.]), np.outer([1., 0., 2.], [1., 0., 2.]), np.outer([0., 3.], [0., 3.]), np.diag([0., 0., 2.])]
     for Q in mats:
         k = Q.shape[0]
         xx = np.array([1.0, 2.0, -1.0])
